@@ -61,7 +61,18 @@ pub fn well_formed(ctx: &Ctx, rng: &mut Rng, max_size: usize) -> WellFormed {
 }
 
 /// any kind of input: well-formed, mutated, spliced, token soup, byte soup
+pub fn mls_carrier(rng: &mut Rng) -> String {
+    use crate::gen::mls;
+    let carrier = *rng.pick(mls::CARRIERS);
+    let n = mls::placeholders(carrier);
+    let lits: Vec<mls::Mls> = (0..n).map(|_| mls::gen(rng)).collect();
+    mls::place(carrier, &lits).0
+}
+
 pub fn any_input(ctx: &Ctx, rng: &mut Rng) -> (String, &'static str) {
+    if rng.chance(1, 12) {
+        return (mls_carrier(rng), "mls-carrier");
+    }
     match rng.below(10) {
         0..=2 => (well_formed(ctx, rng, 25).text, "well-formed"),
         3..=4 => {
